@@ -7,6 +7,7 @@ from ..predabs import Vocab, PredAbs, A, Not, And, Or, T, F
 from ..rules import common
 
 TITLE = "The key-value store is a map with absolute expiry, across restarts"
+TECHNIQUE = 'custom static analysis over clang-14 CFG facts: must-lockset lock table, finite predicate abstraction (expiry facts) over every read API, dataflow shape rules for TTL writes, clock-independence of replay'
 KV = "iora::storage::KVStore"
 KVF = "iora/storage/kvstore.hpp"
 M, CMx, EM = KV + "::_mutex", KV + "::_cacheMutex", KV + "::_evictionMutex"
